@@ -441,3 +441,32 @@ def c07_fuzz(ncases, per_case):
                     live = False
             yield ops
     return gen
+
+
+# ------------------------------------------------------------------- C08
+def c08_fresh(n, every=1):
+    """Replace fixture key material by freshly generated keys (KeyGen) / fresh oct bytes."""
+    def expand(scripts, seed):
+        import copy
+        rnd = random.Random(seed * 31337 + 8)
+        i = 0
+        for s in scripts:
+            i += 1
+            if i % every:
+                continue
+            for r in range(n):
+                c = copy.deepcopy(s)
+                pre = []
+                for op in c:
+                    for k in op.get("keys", []):
+                        if k["kty"] == "oct":
+                            k["var"] = "v%d" % rnd.randrange(1 << 30)
+                        elif k["kty"] == "RSA" and k["bits"] > 3072:
+                            continue
+                        else:
+                            kind = "RSA" if k["kty"] == "RSA" else k["crv"]
+                            name = "fresh%d" % len(pre)
+                            pre.append(dict(op="KeyGen", name=name, kind=kind, bits=k["bits"]))
+                            k["base"] = name
+                yield pre + c
+    return expand
